@@ -25,7 +25,7 @@ if VERIF not in sys.path:
 
 import z3  # noqa: E402
 
-from . import frontend, smt, verify, replay  # noqa: E402
+from . import frontend, smt, verify, replay, re_model  # noqa: E402
 from .api import Registry, Module, Contract  # noqa: E402
 
 
@@ -82,6 +82,10 @@ def build_registry(mods):
     reg.models[common.forall_range] = _models.q_forall
     reg.models[common.exists_range] = _models.q_exists
     reg.models[common.is_opaque] = _models.m_is_opaque
+    reg.models[common.sum_prefix] = _models.q_sum_prefix
+    reg.models[common.count_prefix] = _models.q_count_prefix
+    reg.models[common.nat_of_str] = _models.q_nat_of_str
+    reg.models[common.keys_subset] = _models.q_keys_subset
     reg.models[common.prefix_fold] = _models.m_prefix_fold
     reg.models[common.forall_keys] = _models.q_forall_keys
     reg.models[common.items_of] = _models.m_items_of
